@@ -629,7 +629,9 @@ class CallMixin:
         if c.result_name is not None:
             named = self.eval_spec_fn(s, c.result_name, env)
             s.assume(self.eq(result, named))
-        if c.post is not None:
+        if c.post is not None and not (c.result_name is not None and getattr(c, "name_only_at_calls", False)):
+            # (name_only_at_calls: callers that only need the result's ghost name get just that - assuming less is sound and
+            # spares them the quantified postcondition)
             amap = dict(env)
             amap["result"] = result
             gbound = []
